@@ -275,6 +275,58 @@ fn st(input: &[V]) -> Vec<V> {
     out
 }
 
+/// fv: [kind, a, b, c] -- limit-carrying frames as they come off the wire, decoded by
+/// s2n-quic-core's frame decoder; the decoder's error is mapped the way
+/// space::handle_cleartext_payload maps it (`transport::Error::from`).
+///   kind 0/1 MAX_STREAMS bidi/uni (value a), 2/3 STREAMS_BLOCKED bidi/uni (value a),
+///   4 NEW_CONNECTION_ID (sequence a, retire_prior_to b, connection id length c)
+/// output: [0] decoded, [code] rejected
+fn fv(input: &[V]) -> Vec<V> {
+    use s2n_codec::{DecoderBufferMut, Encoder, EncoderBuffer};
+    use s2n_quic_core::{frame::FrameMut, transport, varint::VarInt};
+    let mut c = Cur::new(input);
+    let kind = c.u64() % 5;
+    let a = VarInt::new(c.u64().min(VMAX)).unwrap();
+    let b = VarInt::new(c.u64().min(VMAX)).unwrap();
+    let len = c.u64().min(255) as u8;
+    let mut bytes = vec![0u8; 64 + 255];
+    let n = {
+        let mut e = EncoderBuffer::new(&mut bytes[..]);
+        match kind {
+            0 | 1 => {
+                e.encode(&(0x12u8 + kind as u8));
+                e.encode(&a);
+            }
+            2 | 3 => {
+                e.encode(&(0x16u8 + (kind as u8 - 2)));
+                e.encode(&a);
+            }
+            _ => {
+                e.encode(&0x18u8);
+                e.encode(&a);
+                e.encode(&b);
+                e.encode(&len);
+                for i in 0..len {
+                    e.encode(&i);
+                }
+                for i in 0..16u8 {
+                    e.encode(&(0xa0u8 + i));
+                }
+            }
+        }
+        e.len()
+    };
+    bytes.truncate(n);
+    let res = match DecoderBufferMut::new(&mut bytes[..]).decode::<FrameMut>() {
+        Ok((_frame, rest)) => {
+            assert!(rest.is_empty(), "the whole frame is consumed");
+            0
+        }
+        Err(e) => transport::Error::from(e).code.as_u64() as V,
+    };
+    vec![res]
+}
+
 fn main() {
-    main_with(&[("rx", rx), ("rx_tolerant", rx), ("st", st), ("st_tolerant", st)]);
+    main_with(&[("rx", rx), ("rx_tolerant", rx), ("st", st), ("st_tolerant", st), ("fv", fv)]);
 }
